@@ -40,7 +40,7 @@ def main():
                                    "failed closed: %r" % (e,)))
         build_ok, build_out = True, ""
         if not args.no_build:
-            ok, build_out = common.coq_build()
+            ok, build_out = common.coq_build(prop)
             # a failure in a file this property does not depend on is not
             # ours; what matters is checked by audit_props / the model runs
         bad = common.audit_forbidden()
